@@ -1,5 +1,9 @@
 """C12 — context lifecycle: unique names, clean failure, stop reclaims everything.
 
+Two parts: (1) sequential operation+fault histories (scenario / oracle / theories/C12/Model.v), described below;
+(2) one operation of a second thread (remove_rpc_object, make_*) racing with stop() in the creating thread
+(scenario_conc / oracle_conc / theories/C12/ConcModel.v, trace acceptance through C12.ConcCorr).
+
 H3: the real QMI_Context / qmi.start / qmi.stop run in a forked child under the deterministic runtime
 (dsched) on the fake network.  One child per history.  A history is a list of operations with the
 faults to inject (constructor raises, release_rpc_object raises, stop handler raises, TCP bind fails,
@@ -993,11 +997,20 @@ def run(ck):
         "model theories/C12/Model.v: transcription by hand of QMI_Context / context_singleton / RpcObjectManager / MessageRouter "
         "life-cycle steps, tied by step-by-step comparison of 16 observables after every operation of every generated history",
         "dsched deterministic runtime with fake asyncio loop and fake network (defines thread liveness, sockets, virtual time)",
+        "interleaving model theories/C12/ConcModel.v of remove/make racing with stop, tied by trace acceptance: the effects on the object map, "
+        "the handler map and the worker threads recorded from every concurrent run (logging dict in place of _rpc_object_map, wrapped "
+        "register/unregister_message_handler and RpcObjectManager.stop) must be a path of the model ending in the observed outcome",
         "harness stubs: instrumented QMI_RpcObject / QMI_Instrument / QMI_Task / QMI_TaskRunner subclasses, wrapped _ContextRpcObject "
         "__init__/release_rpc_object (id + release counter), helper peer context 'srv'",
     ]
     ck.assumptions = [
-        "histories are sequential (one caller thread); interleavings inside one operation are sampled by 1-3 random schedules, not enumerated",
+        "the operation histories are sequential (one caller thread, 1-3 random schedules each); concurrency is covered for ONE racing "
+        "operation: remove_rpc_object or make_rpc_object/make_instrument/make_task in a second thread against stop() in the creating thread "
+        "(random + PCT schedules with line-level switch points inside remove_rpc_object, _internal_make_rpc_object, stop, "
+        "_stop_rpc_objects, and DFS with <= 2 preemptions at synchronisation granularity on two short scenarios); other pairs "
+        "(make||make, remove||remove, anything racing with start) are not explored",
+        "the interleaving model (ConcModel.v) treats each region under _rpc_object_map_lock, each register/unregister and each manager.stop() "
+        "as atomic; its theorems are reflection proofs over 32+32 listed finite instances (<= 3 objects), not over arbitrary populations",
         "faults are exceptions of class Exception raised by constructors, release_rpc_object, stop handlers, socket.bind and connect",
         "OS-level release of sockets is observed on the fake network only",
     ]
@@ -1059,7 +1072,11 @@ def run(ck):
                   dict(rep, impl_outs=[o["out"] for o in obs], broken="correspondence C12.Corr.check_case"), found_input=bool(fl))
     run_conc(ck)
     return ck.finish("seeded random operation+fault histories (length <= 12, both modes) + %d scripted, each under 1-3 random schedules; "
-                     "non-trivial = at least one successful make or stop; distinct by (history, schedule)" % len(SCRIPTED))
+                     "non-trivial = at least one successful make or stop; distinct by (history, schedule); plus concurrent runs (remove / make "
+                     "in a second thread racing with stop) under random, PCT and bounded-DFS schedules, all non-trivial" % len(SCRIPTED),
+                     "Sequential clauses: proof over all histories + step-by-step correspondence.  Concurrent clause (an operation of another "
+                     "thread racing with stop): proof for every interleaving of the atomic regions on the listed finite instances + trace acceptance "
+                     "of sampled real schedules + oracle; weaker than the sequential clauses (finite instances, one racing operation, sampled schedules).")
 
 
 def run_conc(ck):
